@@ -812,4 +812,20 @@ theorem depth_exceeded_witness :
       .ok [["a"], ["l0"], ["l1"], ["l2"], ["l3"], ["l4"], ["l5"], ["l6"], ["l7"], ["l8"]] := by
   decide
 
+/-! ### link cycles (fix D28): the listing walks past links that cannot be traversed -/
+
+/-- a collection next to two soft links pointing at each other, and a link that goes through itself -/
+def opsCycle : List Op :=
+  [.create "A" ["c"] .a 1, .ln "A" ["x"] "A" ["y"] true false, .ln "A" ["y"] "A" ["x"] true false,
+   .ln "A" ["a", "b"] "A" ["a"] true false]
+
+example : listing (run Variant.current [] opsCycle) Variant.spec "A" = .ok [["c"]] ∧
+    isCooler (run Variant.current [] opsCycle) "A" ["x"] = false ∧
+    isCooler (run Variant.current [] opsCycle) "A" ["a", "b"] = false ∧
+    isCooler (run Variant.current [] opsCycle) "A" ["c"] = true := by decide
+
+/-- … and `list_exact_soft_history` applies: exact on a namespace with link cycles -/
+example (p : Path) : p ∈ [["c"]] ↔ isCooler (run Variant.current [] opsCycle) "A" p = true :=
+  list_exact_soft_history Variant.current opsCycle (by decide) (by decide) "A" _ (by decide) p
+
 end Cooler.C15
